@@ -1,4 +1,5 @@
 SPECIFICATION Spec
 INVARIANT IndefiniteSane
 INVARIANT FitsIrrelevant
+INVARIANT OwnershipIrrelevant
 CHECK_DEADLOCK FALSE
